@@ -143,7 +143,15 @@ def r2(cx):
                 if f.dominates(em[0].b, sr[2]):
                     rechecked = True
     cx.ob("C06.R2", "climb:recheck", rechecked, "the climb happens only if the task is still in error *after* it was emitted (a catch that revives it stops the climb)", se[0].loc)
-    cx.floor("C06.R2", 5)
+    # the climb is decided by the failing task alone: still in error after its emission, has a parent, has an error. Nothing
+    # about the PARENT decides it (a parent that is already in error - an earlier failure was taken by a catch further up -
+    # still has to pass this one on)
+    from vlib.model import conditions_of
+    conds_ = sorted({gdesc(m, g) for g in conditions_of(m, f, se[0].b, mode="alias") if not g.neutral})
+    extra_ = [d for d in conds_ if not re.search(r"^TaskState::is_error=True$|^match\(Task::parent\)=Some$|^match\(Task::err\)=Some$|^match\(.*branch.*\)=Continue$|^match\(parent\)=Some$|^match\(err\)=Some$|^match\(.*Clone.*clone\)=Some$", d)]
+    cx.ob("C06.R2", "climb:unconditional", not extra_,
+          "an error that is still standing climbs to the parent whatever state the parent is in (conditions: %s)%s" % (conds_, "" if not extra_ else " - the climb also depends on %s" % extra_), se[0].loc)
+    cx.floor("C06.R2", 6)
 
 
 def r3(cx):
